@@ -385,7 +385,7 @@ def run(chk):
         res = {}
         tier = "full" if thorough else "quick"
         th = [threading.Thread(target=_tlc_gen, args=(chk, "loops", "Gen_FastLen", "Gen_FastLen_%s.cfg" % tier, res),
-                               kwargs=dict(workers=16 if thorough else 10, timeout=3000 if thorough else 400, heap="12g" if thorough else "8g",
+                               kwargs=dict(workers=16 if thorough else 12, timeout=3000 if thorough else 400, heap="12g" if thorough else "8g",
                                            extra=("-fpmem", "0.5") if thorough else ())),
               threading.Thread(target=_tlc_gen, args=(chk, "lattice", "Gen_Smooth", "Gen_Smooth.cfg", res),
                                kwargs=dict(workers=4, timeout=600)),
